@@ -28,6 +28,8 @@ harness("c11_metadata", "san", "pbt/c11_metadata.cc", link="-lrapidcheck")
 harness("c20_animation", "san", "pbt/c20_animation.cc", link="-lrapidcheck")
 harness("c14_builders", "san", "pbt/c14_builders.cc", link="-lrapidcheck")
 harness("c15_io", "san", "pbt/c15_io.cc", link="-lrapidcheck")
+harness("dec_enum", "san", "fuzz/dec_enum.cc", link="-lrapidcheck")
+harness("dec_fuzz", "san", "fuzz/dec_fuzz.cc", link="-fsanitize=fuzzer")
 # the command line tools of the repository, plain optimised build (C15 pipelines)
 harness("draco_encoder", "plain", "repo:src/draco/tools/draco_encoder.cc", whole_archive=True)
 harness("draco_decoder", "plain", "repo:src/draco/tools/draco_decoder.cc", whole_archive=True)
@@ -87,6 +89,8 @@ class Result:
         for k, v in d.get("classes", {}).items():
             self.classes[k] = self.classes.get(k, 0) + v
         self.nontrivial.update(d.get("nontrivial", []))
+        # harnesses that test millions of inputs count their distinct non-trivial inputs themselves
+        self.nontrivial_extra = getattr(self, "nontrivial_extra", 0) + d.get("classes", {}).get("nontrivial_count", 0)
         for s in d.get("samples", []):
             if len(self.samples) < 6:
                 self.samples.append(s)
@@ -154,6 +158,9 @@ def replay_once(exe, mode, path, timeout=600):
     env = dict(os.environ)
     env.update(SAN_ENV)
     env["VERIF_OPEN"] = ""
+    bn = os.path.basename(path)
+    if bn[:1] == "C" and bn[1:3].isdigit():
+        env["VERIF_PROP"] = bn[:3]
     try:
         r = subprocess.run([exe, "--mode", mode, "--replay", path], env=env, capture_output=True, text=True,
                            errors="replace", timeout=timeout)
@@ -217,7 +224,7 @@ def probe_known(prop):
 def finish(prop, tier, res, t0, level="exploration", assumptions=None):
     known_hits = probe_known(prop)
     confirmed = confirm_failures(prop, res)
-    cov = dict(evaluations=res.evaluations, distinct_nontrivial=len(res.nontrivial),
+    cov = dict(evaluations=res.evaluations, distinct_nontrivial=len(res.nontrivial) + getattr(res, "nontrivial_extra", 0),
                rule=" | ".join(res.rules), samples=res.samples[:6], classes=dict(sorted(res.classes.items())),
                known_findings_reproduced=known_hits,
                open_findings_excluded_by_construction=[f["id"] for f in open_findings(prop)])
@@ -237,7 +244,7 @@ def finish(prop, tier, res, t0, level="exploration", assumptions=None):
         sys.stderr.write("HARNESS ERROR (not a verdict about the property):\n" + "\n".join(res.harness_errors) + "\n")
         return 2
     print("OK property=%s tier=%s evaluations=%d distinct_nontrivial=%d wall=%.1fs" % (
-        prop, tier, res.evaluations, len(res.nontrivial), time.time() - t0))
+        prop, tier, res.evaluations, len(res.nontrivial) + getattr(res, "nontrivial_extra", 0), time.time() - t0))
     return 0
 
 
@@ -411,7 +418,150 @@ def check_c15(tier):
                                "the command-line tools are the repository's tools built -O2 without sanitizers"])
 
 
+def gen_seed_streams(prop, tier):
+    """Regenerates small valid streams with the current encoder (one per encoder code-path class and worker)."""
+    exe = ensure_built(["geom_pbt"])["geom_pbt"]
+    d = os.path.join(vbuild.BUILD, "seeds_%s_%d" % (prop, os.getpid()))
+    shutil.rmtree(d, ignore_errors=True)
+    os.makedirs(d)
+
+    def one(i):
+        env = dict(os.environ)
+        env.update(SAN_ENV)
+        env.update({"VERIF_MODE": "gencorpus", "VERIF_PROP": prop, "VERIF_CORPUS_OUT": d, "VERIF_TIER": "quick",
+                    "VERIF_CORPUS_PER_CLASS": "1", "VERIF_OUT": "",
+                    "VERIF_OPEN": ",".join(f["id"] for f in open_findings()),
+                    "RC_PARAMS": "seed=%d max_success=%d" % (derive_seed(SEED, "seeds", i), 250 if tier == "quick" else 1500)})
+        subprocess.run([exe], env=env, stdout=subprocess.DEVNULL, stderr=subprocess.DEVNULL, timeout=1800)
+
+    with ThreadPoolExecutor(16) as ex:
+        list(ex.map(one, range(16)))
+    # workers overlap in the classes they cover: keep at most `cap` streams, smallest first (cheap, dense enumeration)
+    files = sorted(os.listdir(d), key=lambda f: (os.path.getsize(os.path.join(d, f)), f))
+    cap = 260 if tier == "quick" else 2000
+    for f in files[cap:]:
+        os.remove(os.path.join(d, f))
+    return d
+
+
+def run_fuzz(res, prop, exe, seed_dirs, seconds, workers, empty_workers, tier):
+    """libFuzzer campaigns: `workers` processes on the seed corpus + `empty_workers` from an empty corpus."""
+    base = tempfile.mkdtemp(prefix="fuzz_%s_" % prop, dir=vbuild.BUILD)
+    art = os.path.join(base, "artifacts")
+    os.makedirs(art)
+
+    def one(i):
+        out = os.path.join(base, "corpus%d" % i)
+        os.makedirs(out)
+        env = dict(os.environ)
+        env.update(SAN_ENV)
+        env["VERIF_PROP"] = prop
+        env["VERIF_OUT"] = os.path.join(base, "w%d.json" % i)
+        cmd = [exe, out] + (seed_dirs if i < workers else []) + [
+            "-max_total_time=%d" % seconds, "-timeout=25", "-rss_limit_mb=6000", "-max_len=16384",
+            "-seed=%d" % derive_seed(SEED, prop, "fuzz", i), "-print_final_stats=1",
+            "-artifact_prefix=%s/w%d-" % (art, i)]
+        log = os.path.join(base, "w%d.log" % i)
+        with open(log, "w") as lf:
+            try:
+                subprocess.run(cmd, env=env, stdout=lf, stderr=subprocess.STDOUT, timeout=seconds + 600)
+            except subprocess.TimeoutExpired:
+                pass
+        return i, log, env["VERIF_OUT"]
+
+    n = workers + empty_workers
+    with ThreadPoolExecutor(n) as ex:
+        outs = list(ex.map(one, range(n)))
+    execs = 0
+    cov = 0
+    for i, log, statf in outs:
+        txt = open(log, errors="replace").read()
+        for line in txt.splitlines():
+            if line.startswith("stat::number_of_executed_units:"):
+                execs += int(line.split()[-1])
+        covs = [int(m) for m in __import__("re").findall(r" cov: (\d+)", txt)]
+        if covs:
+            cov = max(cov, covs[-1])
+        try:
+            d = json.load(open(statf))
+            for k, v in d.get("classes", {}).items():
+                res.classes["fuzz_" + k] = res.classes.get("fuzz_" + k, 0) + v
+            res.nontrivial_extra = getattr(res, "nontrivial_extra", 0)
+        except Exception:
+            pass
+    res.evaluations += execs
+    res.classes["fuzz_executions"] = res.classes.get("fuzz_executions", 0) + execs
+    res.classes["fuzz_covered_edges_best_worker"] = cov
+    res.classes["fuzz_workers_seeded"] = workers
+    res.classes["fuzz_workers_empty_corpus"] = empty_workers
+    arts = sorted(glob.glob(os.path.join(art, "*")))
+    os.makedirs(os.path.join(REPLAY, "tmp"), exist_ok=True)
+    for a in arts:
+        bn = os.path.basename(a)
+        kind = bn.split("-")[1] if "-" in bn else "x"
+        if kind not in ("crash", "leak", "timeout"):
+            res.classes["fuzz_artifacts_ignored_" + kind] = res.classes.get("fuzz_artifacts_ignored_" + kind, 0) + 1
+            continue
+        dst = os.path.join(REPLAY, "tmp", "%s-%s-%s.bin" % (prop, "hang" if kind == "timeout" else "crash", bn.split("-")[-1][:16]))
+        shutil.copy(a, dst)
+        res.failures.append(("dec_enum", None, "x", dst, "libFuzzer artifact " + bn))
+    shutil.rmtree(base, ignore_errors=True)
+
+
+def check_dec(prop, tier):
+    t0 = time.time()
+    exes = ensure_built(["geom_pbt", "dec_enum", "dec_fuzz"])
+    res = Result()
+    seeds = gen_seed_streams(prop, tier)
+    sys.stderr.write("[%s] seed streams regenerated at %.0fs\n" % (prop, time.time() - t0))
+    try:
+        nseeds = len(os.listdir(seeds))
+        seed_dirs = "%s:%s" % (seeds, os.path.join(VERIF, "corpus", "legacy"))
+        # 64 shards on 16 cores: seeds differ a lot in cost, finer shards even the load out
+        run_shards(res, prop, "dec_enum", exes["dec_enum"], "enum", tier, 64, 1,
+                   extra_env={"VERIF_SEED_DIRS": seed_dirs, "VERIF_SEED": str(SEED)}, timeout=7200)
+        sys.stderr.write("[%s] enumeration done at %.0fs\n" % (prop, time.time() - t0))
+        if not res.failures:
+            run_fuzz(res, prop, exes["dec_fuzz"], [seeds, os.path.join(VERIF, "corpus", "legacy")],
+                     40 if tier == "quick" else 1200, 12, 4, tier)
+    finally:
+        shutil.rmtree(seeds, ignore_errors=True)
+    sys.stderr.write("[%s] fuzzing done at %.0fs\n" % (prop, time.time() - t0))
+    for i, f in enumerate(res.failures):
+        if f[1] is None:
+            res.failures[i] = (f[0], exes["dec_enum"], f[2], f[3], f[4])
+    res.classes["regenerated_seed_streams"] = nseeds
+    res.required_classes = ["class_truncation", "class_byte_pattern", "class_u32_pattern", "class_varint_pattern",
+                            "class_header_rewrite", "class_splice", "class_multi_site", "class_count_u32",
+                            "class_count_varint", "fuzz_executions"] if not (prop == "C18" and tier == "quick") else \
+        ["class_count_u32", "class_count_varint", "fuzz_executions"]
+    return finish(prop, tier, res, t0, level="fault_enumeration",
+                  assumptions=["single-site corruptions are complete only for the listed patterns and for offsets below the dense "
+                               "bound of long seeds; multi-site corruptions, splices and libFuzzer executions are samples",
+                               "semantic (entropy-coded) tampering of traversal symbols is not enumerated in this revision; such "
+                               "streams are reached only through libFuzzer mutations",
+                               "C18 constants: K0 = 48 MiB fixed overhead, K = 256 bytes per unit of (input length + declared "
+                               "points/faces/components/symbols); DRACO_DCHECKs are compiled out as in every release build",
+                               "hangs: a decode that exceeds the 25 s libFuzzer limit / the watchdog is re-run alone three times "
+                               "with a 180 s limit before it is reported"])
+
+
+def check_c02(tier):
+    return check_dec("C02", tier)
+
+
+def check_c03(tier):
+    return check_dec("C03", tier)
+
+
+def check_c18(tier):
+    return check_dec("C18", tier)
+
+
 CHECKS = {
+    "C02": check_c02,
+    "C03": check_c03,
+    "C18": check_c18,
     "C15": check_c15,
     "C14": check_c14,
     "C20": check_c20,
@@ -433,6 +583,9 @@ REPLAYERS = {
     "C20": [("c20_animation", "c20")],
     "C14": [("c14_builders", "c14")],
     "C15": [("c15_io", "c15")],
+    "C02": [("dec_enum", "x")],
+    "C03": [("dec_enum", "x")],
+    "C18": [("dec_enum", "x")],
     "C13": [("c13_corner_table", "c13")],
     "C16": [("prim_pbt", "c16")],
     "C17": [("prim_pbt", "c17")],
